@@ -105,7 +105,7 @@ func (e *engine) expired() bool {
 // what was being evaluated if this process dies (stack exhaustion, out of memory).
 func (e *engine) evalOp(op string, run runFn, in string) result {
 	if e.iso != nil {
-		if e.iso.skip[hashInput(op, in)] {
+		if e.iso.skip[hashInput(op, in)] || e.iso.skipOps[opGroup(op)] {
 			return result{status: "error"}
 		}
 		slot := e.iso.acquire(op, in)
